@@ -1,6 +1,7 @@
 """Run a history case against the real FileBuilder (from FB_REPO, default /repo) in a sandbox."""
 import importlib
 import logging
+import hashlib
 import os
 import shutil
 import sys
@@ -328,6 +329,27 @@ def tmp_leftovers():
         return []
 
 
+def cache_probe_for(cache_abs):
+    """the committed cache file as it is before a build starts; the probe says what changed about it (None: nothing)"""
+    def sig():
+        try:
+            st = os.stat(cache_abs)
+            with open(cache_abs, 'rb') as fh:
+                return (st.st_ino, st.st_size, st.st_mtime_ns, hashlib.sha1(fh.read()).hexdigest())
+        except OSError:
+            return None
+    before = sig()
+    if before is None:
+        return None
+
+    def probe():
+        now = sig()
+        if now == before:
+            return None
+        return 'missing' if now is None else 'replaced or rewritten'
+    return probe
+
+
 def run_case(case, hooks=None, mutate=False):
     """-> {'steps': [obs...]}; obs for build: res, tree, inv, queries; for mut: tree"""
     fb = load_fb()
@@ -365,10 +387,15 @@ def run_case(case, hooks=None, mutate=False):
                 ctx.set_spelling(case.get('spell'), step_index)
                 ctx.mutate = mutate
                 before_tmp = tmp_leftovers()
+                ctx.cache_probe = cache_probe_for(cache_abs)
 
                 def rootf(b, a):
                     ctx.root_entered = True
                     r_ = dsl.run_func(ctx, root_idx, b, None, a, {}, is_root=True)
+                    if ctx.cache_probe is not None and not ctx.cache_early:
+                        w_ = ctx.cache_probe()           # ... up to the moment the root function returns
+                        if w_:
+                            ctx.cache_early.append(['<root returning>', w_])
                     ctx.root_returned = True
                     return r_
                 if hooks and 'pre_build' in hooks:
@@ -395,7 +422,7 @@ def run_case(case, hooks=None, mutate=False):
                 obs = {'res': res, 'tree': snapshot(root, cache_abs), 'inv': ctx.inv, 'root': root, 'spelled': dict(ctx.spellings),
                        'root_called': bool(getattr(ctx, 'root_entered', False)),
                        'cache_json': read_cache_json(cache_abs) if 'ok' in res and os.path.isfile(cache_abs) else None,
-                       'queries': ctx.query_log, 'contract': ctx.contract,
+                       'queries': ctx.query_log, 'contract': ctx.contract, 'cache_early': ctx.cache_early,
                        'tmp_leak': [n for n in tmp_leftovers() if n not in before_tmp]}
                 if inj is not None:
                     obs['fault'] = {'fired': inj.fired, 'injectable_calls': inj.count, 'calls': inj.log[:60]}
